@@ -20,6 +20,7 @@
 #include <tlx/math/rol.hpp>
 #include <cstdint>
 #include <cstdlib>
+#include <cstring>
 
 #if defined(_MSC_VER)
 
@@ -38,6 +39,14 @@
 
 namespace tlx {
 
+//! load a little-endian 64-bit word from a possibly unaligned address
+static inline std::uint64_t siphash_load64_le(const std::uint8_t* p)
+{
+    std::uint64_t v;
+    std::memcpy(&v, p, sizeof(v));
+    return bswap64_le(v);
+}
+
 static inline std::uint64_t siphash_plain(const std::uint8_t key[16],
                                           const std::uint8_t* m, size_t len)
 {
@@ -46,8 +55,8 @@ static inline std::uint64_t siphash_plain(const std::uint8_t key[16],
     std::uint64_t last7;
     size_t i, blocks;
 
-    k0 = bswap64_le(*reinterpret_cast<const std::uint64_t*>(key + 0));
-    k1 = bswap64_le(*reinterpret_cast<const std::uint64_t*>(key + 8));
+    k0 = siphash_load64_le(key + 0);
+    k1 = siphash_load64_le(key + 8);
     v0 = k0 ^ 0x736f6d6570736575ULL;
     v1 = k1 ^ 0x646f72616e646f6dULL;
     v2 = k0 ^ 0x6c7967656e657261ULL;
@@ -73,7 +82,7 @@ static inline std::uint64_t siphash_plain(const std::uint8_t key[16],
 
     for (i = 0, blocks = (len & ~7); i < blocks; i += 8)
     {
-        mi = bswap64_le(*reinterpret_cast<const std::uint64_t*>(m + i));
+        mi = siphash_load64_le(m + i);
         v3 ^= mi;
         TLX_SIPCOMPRESS();
         TLX_SIPCOMPRESS();
